@@ -68,6 +68,16 @@ def call_prim(I, node, name, args, kwargs, st):
         else:
             yield st, SInt(z3.StrToInt(s.expr))
         return
+    if name == 'seq_fold':
+        yield from seq_fold(I, node, args, st)
+        return
+    if name == 'seg_val':
+        v, = args
+        if isinstance(v, Ref) and isinstance(st.heap[v.addr], HObj) and st.heap[v.addr].cls.startswith('opaque:'):
+            yield st, st.heap[v.addr].fields['v']
+        else:
+            yield st, v
+        return
     if name == 'seq_filter_map':
         yield from seq_filter_map(I, node, args, st)
         return
@@ -196,3 +206,117 @@ def seq_filter_map(I, node, args, st):
             return z3.If(e.arg(0), go(e.arg(1)), go(e.arg(2)))
         return F(e)
     yield st, I.alloc(st, HSeq(go(o.e), oty))
+
+
+# ---- seq_fold ---------------------------------------------------------------------------
+_fold_ufs = {}
+_step_cache = {}
+
+
+def val_to_z(I, st, v, t):
+    """like tys.to_z but follows heap references (lists inside tuples)"""
+    from .tys import to_z, zsort, ListOf, Tup, tuple_sort, Opt
+    if isinstance(v, SIte) and not (v.orig is not None and v.orig[1] == repr(t)):
+        return z3.If(v.c, val_to_z(I, st, v.a, t), val_to_z(I, st, v.b, t))
+    if isinstance(t, ListOf):
+        o = HList(v.items) if isinstance(v, STuple) else st.heap[v.addr]
+        if isinstance(o, HSeq):
+            return o.e
+        if not o.items:
+            return z3.Empty(z3.SeqSort(zsort(t.t)))
+        us = [z3.Unit(val_to_z(I, st, x, t.t)) for x in o.items]
+        return us[0] if len(us) == 1 else z3.Concat(*us)
+    if isinstance(t, Tup):
+        _, mk, _ = tuple_sort(t.ts)
+        return mk(*[val_to_z(I, st, x, tt) for x, tt in zip(v.items, t.ts)])
+    return to_z(v, t)
+
+
+def val_from_z(I, st, e, t):
+    from .tys import from_z, ListOf, Tup, tuple_sort
+    if isinstance(t, ListOf):
+        return I.alloc(st, HSeq(e, t.t))
+    if isinstance(t, Tup):
+        _, _, accs = tuple_sort(t.ts)
+        return STuple([val_from_z(I, st, a(e), tt) for a, tt in zip(accs, t.ts)])
+    return from_z(e, t)
+
+
+def seq_fold(I, node, args, st):
+    from .contract import FOLD_TYPES
+    from .tys import zsort
+    lst, step, init = args
+    short = step.name.rsplit('.', 1)[-1]
+    if short not in FOLD_TYPES:
+        raise EngineLimit('seq_fold: declare FOLD_TYPES[%r]' % short)
+    sty, ety = FOLD_TYPES[short]
+    ssort, esort = zsort(sty), zsort(ety)
+    if short not in _fold_ufs:
+        _fold_ufs[short] = z3.Function('fold!' + short, ssort, z3.SeqSort(esort), ssort)
+    F = _fold_ufs[short]
+
+    def step_z(acc_z, x_z):
+        ck = (short, acc_z.get_id(), x_z.get_id(), id(I.base_pc))
+        if ck in _step_cache:
+            return _step_cache[ck]
+        r = _step_z(acc_z, x_z)
+        _step_cache[ck] = r
+        return r
+
+    def _step_z(acc_z, x_z):
+        s0 = st.fork()
+        s0.pc = list(I.base_pc)
+        accv = val_from_z(I, s0, acc_z, sty)
+        xv = val_from_z(I, s0, x_z, ety)
+        n0 = len(s0.pc)
+        outs = []
+        for st1, r in I.call_function(step, [accv, xv], {}, s0, node, _nomerge=True):
+            if isinstance(r, Raise):
+                chk = z3.Solver()
+                chk.set('timeout', 8000)
+                chk.add(*[f for f in st1.pc if not z3.is_quantifier(f)])
+                if chk.check() == z3.unsat:
+                    continue      # infeasible path of the step function
+                raise EngineLimit('seq_fold: step function %s raises %s' % (short, r.exc.cls))
+            outs.append((st1.pc[n0:], val_to_z(I, st1, r, sty)))
+        res = outs[-1][1]
+        for delta, rz in reversed(outs[:-1]):
+            c = z3.And(delta) if len(delta) > 1 else (delta[0] if delta else z3.BoolVal(True))
+            res = z3.If(c, rz, res)
+        return res
+
+    axk = ('fold-axioms', short)
+    if axk not in I.axiom_keys:
+        I.axiom_keys.add(axk)
+        a = z3.Const('fold!a', z3.SeqSort(esort))
+        b = z3.Const('fold!b', z3.SeqSort(esort))
+        s = z3.Const('fold!s', ssort)
+        x = z3.Const('fold!x', esort)
+        I.axioms.append(z3.ForAll([s, a, b], F(s, z3.Concat(a, b)) == F(F(s, a), b), patterns=[F(s, z3.Concat(a, b))]))
+        I.axioms.append(z3.ForAll([s, x], F(s, z3.Unit(x)) == step_z(s, x), patterns=[F(s, z3.Unit(x))]))
+        I.axioms.append(z3.ForAll([s], F(s, z3.Empty(z3.SeqSort(esort))) == s, patterns=[F(s, z3.Empty(z3.SeqSort(esort)))]))
+        I.trusted.add('seq_fold over an unknown prefix is an uninterpreted function with its defining (fold) axioms; distributed over ++, unit, ite')
+
+    o = st.heap[lst.addr]
+    if isinstance(o, HList):
+        e = None
+        items = [z3.Unit(val_to_z(I, st, x, ety)) for x in o.items]
+        e = z3.Empty(z3.SeqSort(esort)) if not items else (items[0] if len(items) == 1 else z3.Concat(*items))
+    else:
+        e = o.e
+    acc = val_to_z(I, st, init, sty)
+
+    def go(e, acc):
+        k = e.decl().kind() if z3.is_app(e) else None
+        if k == z3.Z3_OP_SEQ_EMPTY:
+            return acc
+        if k == z3.Z3_OP_SEQ_UNIT:
+            return step_z(acc, e.arg(0))
+        if k == z3.Z3_OP_SEQ_CONCAT:
+            for i in range(e.num_args()):
+                acc = go(e.arg(i), acc)
+            return acc
+        if k == z3.Z3_OP_ITE:
+            return z3.If(e.arg(0), go(e.arg(1), acc), go(e.arg(2), acc))
+        return F(acc, e)
+    yield st, val_from_z(I, st, go(e, acc), sty)
